@@ -154,7 +154,12 @@ func (x *Ctx) absEvent(e *sgbucket.FeedEvent, absKey func(string) string) Ev {
 		ev.Xa = x.absXattrs(xs)
 	}
 	if len(body) == 0 {
-		body = nil
+		// a deletion carries no body; a mutation whose value has length zero carries an empty one
+		if ev.Op == "mut" {
+			body = []byte{}
+		} else {
+			body = nil
+		}
 	}
 	x.crc.note(body)
 	ev.Body = AbstractBody(body)
